@@ -34,6 +34,23 @@ type Violation struct {
 	Sub    string `json:"sub"`
 	Sig    string `json:"sig"`
 	Detail string `json:"detail"`
+	// Choices: the choice vector / schedule of the failing execution (C09, C11, C07 lexer);
+	// a replay executes exactly this vector without the explorer.
+	Choices []int `json:"choices,omitempty"`
+}
+
+// ReplayChoices returns the recorded choice vector when the process is replaying a
+// violation file (nil otherwise): the check then runs that single execution.
+func ReplayChoices() ([]int, bool) {
+	v := os.Getenv("VERIF_REPLAY_CHOICES")
+	if v == "" {
+		return nil, false
+	}
+	var c []int
+	if json.Unmarshal([]byte(v), &c) != nil {
+		return nil, false
+	}
+	return c, true
 }
 
 // Space is a finite enumerated case space. Exec must be deterministic.
